@@ -322,8 +322,7 @@ def _clamp(check: Check):
       for x in nd.walk():
         if isinstance(x, ast.Compare) and len(x.ops) == 1 and isinstance(x.ops[0], (ast.Gt, ast.Lt, ast.GtE, ast.LtE)):
           sides = [x.left, x.comparators[0]]
-          rand = [s for s in sides if isinstance(s, ast.Name) and any(
-              isinstance(d.value, ast.Call) and (ff.ext(d.value.func) or '').startswith('jax.random.') for d in ff.defs_for(s))]
+          rand = [s for s in sides if any(isinstance(v, ast.Call) and (ff.ext(v.func) or '').startswith('jax.random.') for v in ff.expand(s))]
           if len(rand) != 1:
             continue
           other = [s for s in sides if s is not rand[0]][0]
